@@ -879,7 +879,8 @@ def is_int_term(t, depth=0):
         b = t[1]
         while isinstance(b, tuple) and b and b[0] in ('carried', 'after') and len(b) > 2:
             b = b[2]
-        return isinstance(b, tuple) and b[:1] == ('param',) and b[1] in INT_ARRAY_PARAMS
+        if isinstance(b, tuple) and b[:1] == ('param',) and b[1] in INT_ARRAY_PARAMS:
+            return True
     if h == 'call':
         return t[1] in ('len', 'int', '.count', '.index')
     if h == 'proj':
@@ -896,12 +897,27 @@ def is_int_term(t, depth=0):
     if h == 'phi':
         if is_int_term(t[2], depth + 1) and is_int_term(t[3], depth + 1):
             return True
+    if h == 'phitable':
+        # a decision table (refspec._phitable) is an integer when every value it can select is one
+        return len(t) > 3 and bool(t[3]) and all(is_int_term(x, depth + 1) for x in t[3])
     if INT_TERMS and h in ('idx', 'phi', 'carried', 'after'):
         try:
-            return t in INT_TERMS
+            return int_shape(t) in INT_TERMS
         except TypeError:
             return False
     return False
+
+
+def int_shape(t):
+    """the term with the names of loop variables and loop-carried values blanked: INT_TERMS is consulted at every stage of the
+    normalisation (raw, renumbered, masked), and an index is an integer under any of those spellings"""
+    if not isinstance(t, tuple) or not t:
+        return t
+    if t[0] == 'loopvar' and len(t) >= 3:
+        return ('loopvar', '?', int_shape(t[2])) + tuple(int_shape(x) for x in t[3:])
+    if t[0] == 'carried' and len(t) >= 2:
+        return ('carried', '?') + tuple(int_shape(x) for x in t[2:])
+    return tuple(int_shape(x) for x in t)
 
 
 _INT_NEG = {'LtE': 'Gt', 'GtE': 'Lt'}
